@@ -9,6 +9,9 @@ for f in sorted(glob.glob(os.path.join(V, "tools", "ltv", "props", "c[0-9]*.py")
     mod = importlib.import_module("ltv.props." + os.path.basename(f)[:-3])
     if hasattr(mod, "MANIFEST"):
         CHECKS[os.path.basename(f)[:-3].upper()] = mod.MANIFEST
+# only properties listed in tools/claimed.txt are claimed (verified OK on the clean tree, seeds 1-3)
+CLAIMED = set(open(os.path.join(V, "tools", "claimed.txt")).read().split())
+CHECKS = {k: v for k, v in CHECKS.items() if k in CLAIMED}
 NOT_YET = {}
 def main():
     props = [json.loads(l)["id"] for l in open(os.path.join(V, "properties.jsonl"))]
